@@ -260,7 +260,8 @@ def region(ksr: Any, last: Any, table: list[dict[str, Any]] | None, attached: st
     prev_records = {key_record(k) for k in prev.keys}
     out["check_chain_keys"] = all(key_record(k) in prev_records for k in first.keys)
     ov = lib.td_us(prev.expiration - first.inception)
-    out["check_chain_overlap"] = lib.td_us(ksr.zsk_policy.min_validity_overlap) <= ov <= lib.td_us(ksr.zsk_policy.max_validity_overlap)
+    # (no gap — the explicit test /repo applies since the F10 repair — and the declared window)
+    out["check_chain_overlap"] = ov >= 0 and lib.td_us(ksr.zsk_policy.min_validity_overlap) <= ov <= lib.td_us(ksr.zsk_policy.max_validity_overlap)
     if attached != "attached":
         out["check_chain_keys_in_hsm"] = True  # no token attached: clause does not apply
     else:
@@ -949,20 +950,16 @@ def run(tier: str, driver_ok: bool) -> Result:
         if kind in ("overlap", "token", "keys") and not any(s.get("kind") == kind for s in res.samples) and all(case["flags"].values()) and "ok" not in obs["impl"]:
             res.sample({"kind": kind, "tag": case["tag"], "flags": case["flags"], "attached": case["attached"], "impl": obs["impl"], "model": model[pos - nl], "region": region(ksr, last, case["token"], case["attached"])}, limit=6)
 
-    # F10 (DESIGN §5): the chain-overlap rule has no gap test of its own.  Witness of C08.chain_no_gap_unconditional_false,
-    # replayed on the real code.  NOT a C08 violation: C08 asks for the overlap to lie within the KSR-declared window, and
-    # a negative declared minimum makes a gap conformant; it matters for C10 ("no coverage gap").
+    # F10 (DESIGN §5, repaired in /repo): a gap between SKR(n-1) and KSR(n) must be refused even when the KSR declares a
+    # negative minimum overlap.  The former witness is replayed on the real code as a regression case.
     last = base_last(2)
     w = base_ksr(last, 2, overlap=-DAY_US // 2, min_ov=-DAY_US, max_ov=12 * DAY_US)
     from kskm.signer.policy import check_skr_and_ksr
 
     got = run_impl(lambda: check_skr_and_ksr(w, last, policy_of(all_on), None))
-    res.notes.append(
-        "F10 witness replayed on /repo: previous last bundle expires 12 h BEFORE the KSR's first inception, KSR declares MinValidityOverlap = -1 day, "
-        f"all chain flags on -> check_skr_and_ksr: {got} (a gap is accepted; conformant to C08 as stated, relevant to C10). "
-        "Lean: C08.chain_no_gap_partial (0 <= declared min => no gap) and C08.chain_no_gap_unconditional_false (this witness)."
-    )
     res.stats["F10_gap_witness_impl"] = got
+    if "ok" in got:
+        res.violation("chain overlap rule accepts a coverage gap", {"witness": "previous last expiration 12 h before the KSR's first inception; declared MinValidityOverlap -1 day"}, key="negative-min-overlap", impl=got)
 
     run_skr_stream(res, r, tier, driver_ok)
     run_glue_stream(res, pairs, r, tier)
